@@ -68,6 +68,10 @@ CHECKS = {
         technique="TLA+ spec CtorUnwind.tla (EB_NEW/EB_DELETE unwinding, all small object trees x fault positions) + fault enumeration on the real library: K-th fallible primitive fails during init_handle / set_parameter / init",
         text="Single-fault enumeration by index of the failing primitive with call-site attribution; the call must report an error, teardown must return, ledger must be empty.",
         note="Quick samples K (all K<=60, last 40, random 110 per call); thorough enumerates every K of set_parameter and init and 10% of init_handle.", design="4 (C16)"),
+    "C17": dict(category="model_checking",
+        technique="TLA+ spec Instances.tla (encoder/decoder instances of one process + the process-global state the code shares between them: block-geometry tables, kernel dispatch pointers, the decoder allocation list); TLC decides NoInterference per population; real library bound through outputs: harness multi_record runs the instances of a group in one process and Observe.tla compares every instance item by item with its solo run",
+        text="Design level: all interleavings of init/encode/decode/teardown steps of 2-3 instances per population (same configuration, differing superblock size, differing cpu flags, two decoders, encoder+decoder); implementation level: sampled groups (pairs/triples, 8/10 bit, presets, asm levels, staggered starts) whose outputs must equal the solo outputs.",
+        note="Races that do not change an output are only visible in the model (no TSan run); the populations the model shows to interfere are recorded findings and the corresponding real groups crash as predicted.", design="4 (C17)"),
     "C18": dict(category="exploration",
         technique="trace validation against Bitstream.tla (QOK) of base_q_idx in every frame header read by the independent parser; expectations from the configuration only",
         text="Bounds [Q(min),Q(max)] for rate control, (1,63) for CQP, exact value for fixed-qindex-offset mode.", note="2-pass not exercised; uniform layer offsets.", design="4 (C18)"),
